@@ -328,9 +328,6 @@ class Interp:
         if a.term == b.term and a.kind == b.kind and a.kind not in ("obj",):
             if a.shape == b.shape:
                 return a
-        lab = frozenset()
-        for x in cond.walk() if isinstance(cond, Term) else ():
-            pass
         clabels = self._cond_labels.get(cond, frozenset()) if hasattr(self, "_cond_labels") else frozenset()
         if a.kind == "undef" or b.kind == "undef":
             other = b if a.kind == "undef" else a
@@ -1007,10 +1004,10 @@ class Interp:
         return V("func", T("lambda", fr.fi.qualname, n.lineno), func=Closure(fi, env_chain=chain, self_v=None, cls=getattr(fr, "cls", None), lam=captured))
 
     def mk_tuple(self, items):
-        return V("tuple", T("tuple", *[x.term for x in items]), items=list(items), labels=frozenset().union(*[x.labels for x in items]) if items else frozenset(), orig=frozenset().union(*[x.orig for x in items]) if items else frozenset())
+        return V("tuple", T("tuple", *[x.term for x in items]), items=list(items), labels=frozenset().union(*[x.labels for x in items]) if items else frozenset(), orig=frozenset([FRESH]))
 
     def mk_list(self, items):
-        return V("list", T("list", *[x.term for x in items]), items=list(items), labels=frozenset().union(*[x.labels for x in items]) if items else frozenset(), orig=frozenset().union(*[x.orig for x in items]) if items else frozenset(), loc=fresh_id())
+        return V("list", T("list", *[x.term for x in items]), items=list(items), labels=frozenset().union(*[x.labels for x in items]) if items else frozenset(), orig=frozenset([FRESH]), loc=fresh_id())
 
     def mk_dict(self, d):
         return V("dict", T("dict", *[T("kv", const(k), d[k].term) for k in sorted(d, key=repr)]), items=dict(d), labels=frozenset().union(*[x.labels for x in d.values()]) if d else frozenset(), loc=fresh_id())
@@ -1356,6 +1353,11 @@ class Interp:
                 return self.phi(cond, ra, rb)
             if isinstance(f, tuple) and f[0] == "builtin":
                 self.resolved_calls += 1
+                hook = self.config.get("call_hook")
+                if hook is not None:
+                    r = hook(self, "builtin:" + str(f[2]), args, kwargs, st, n)
+                    if r is not None:
+                        return r
                 return f[1](self, args, kwargs, st, n)
             if isinstance(f, tuple) and f[0] == "bound":
                 self.resolved_calls += 1
